@@ -23,6 +23,7 @@ CLAUSE = {
     "leader-assignment-to-non-member": "adopt_exactly",
     "join-before-revoke-callback-finished": "revoke_before_assign_groupwide",
     "join-sent-during-callback": "revoke_before_assign_groupwide",
+    "session-expired-during-revoke-callback": "revoke_before_assign_groupwide",
 }
 
 
@@ -42,6 +43,10 @@ def run(ctx):
         "one assignor per member (two assignors trigger the C06 join-loop defect, handled under C06)",
         "the leader's assignment is checked for validity on every history (disjoint, only subscribed topics); that the "
         "three assignors always produce such assignments is C14's theorem, not re-proved here",
+        "leaveR (own LeaveGroup answered → gate closed) and expire (no session expiry during the revoke callback) are "
+        "judged only for members with an undisturbed coordination channel so far (no fault aimed at them, no coordinator "
+        "failover) and, for expire, only for the member id the member currently uses; the application does not poll in "
+        "the 20 ms after a LeaveGroup answer (travel time + one auto-commit round trip before the gate closes)",
         "crash points, fault placements and schedules of the implementation are sampled by the simulator",
     ]
     ctx.coverage["rule"] = (
@@ -52,5 +57,8 @@ def run(ctx):
         "drop_before / drop_after / lose_reply / delay faults on JoinGroup, SyncGroup, Heartbeat, OffsetCommit, "
         "OffsetFetch, FindCoordinator, Fetch, ListOffsets aimed at single members, a producer (25 % transactional) "
         "appending during the run, raising key/value deserializers and CRC-corrupted fetch batches (the application "
-        "catches the exception and keeps polling). non-trivial = ≥2 generations, ≥1 delivery, ≥1 commit; distinct by (scenario, sizes)")
+        "catches the exception and keeps polling), non-retriable coordination errors, held / stale fetch answers, "
+        "members with max_poll_interval_ms 1..1.5 s whose application pauses longer than that (they leave the group "
+        "by themselves and poll again later), members whose revoke callback (2..3.3 s) outlasts their session timeout "
+        "(1.5 s; rebalance timeout 5 s). non-trivial = ≥2 generations, ≥1 delivery, ≥1 commit; distinct by (scenario, sizes)")
     G.run_check(ctx, "C05", CLAUSE.get, n_quick=100, n_thorough=4000)
